@@ -102,7 +102,11 @@ def run(ctx):
         freq = hvgen.gen_freq(rng)
         amp = hvgen.gen_curve(rng, freq)
         cls = hvsrpy.HvsrCurve if i % 2 == 0 else hvsrpy.HvsrDiffuseField
-        obj = cls(freq, amp)
+        fb, ab = freq.copy(), amp.copy()
+        obj = cls(fb, ab)
+        if i % 3 != 2:      # the caller re-uses its float64 work buffers: the object must have kept its own copy
+            fb[:] = fb[::-1].copy() * 2.0 + 1.0
+            ab[:] = 5.0
         seq = [(None, None)] + [(range_at_maxima(rng, freq, amp) if rng.random() < 0.3 else hvgen.gen_range(rng, freq)) for _ in range(int(rng.integers(1, 7)))]
         if rng.random() < 0.3:   # repeat a range, change only one bound: the early-return path
             r0 = seq[-1]
